@@ -62,7 +62,8 @@ def runCover (_inp : List String) (out : String) : Option Res :=
         let id := ((x.get "id").toNat?).getD 0
         let first := ((a.ds.find? (·.id == id)).map (fun d => d.prev.foldl min id)).getD id
         let m := s!"{x.kind} of {x.signer} on dispute {id} was rejected for lack of funds"
-        if dusty.contains first then (dusty, short, if known.isEmpty then m ++ ": its from-stake fee was escrowed short of the recorded amount" else known)
+        let _ := first
+        if !dusty.isEmpty then (dusty, short, if known.isEmpty then m ++ s!": the from-stake fee of dispute(s) {dusty} was escrowed short of the recorded amount" else known)
         else (dusty, if short.isEmpty then m else short, known)
       else acc) (dusty, short, known)) (([] : List Nat), "", "")
   let _ := dusty
